@@ -109,6 +109,32 @@ def parser_decision_table(ctx):
     rhs = [s for s in stmts_of(lps[1]) if isinstance(s, ast.AugAssign) and ''.join(unparse(s.target).split()) == "eqn['rhs']"]
     want = T.term(ast.parse("eps.replace('e_', '_tol(%(rhs)s,tol,rel)' % eqn) or eta % eqn", mode='eval').body)
     ctx.check(bool(rhs) and t(rhs[0].value) == want, 'constraints_parser#rhs', 'rhs extended by the tolerance term', 'rhs is extended by %s' % (unparse(rhs[0].value) if rhs else None), f, rhs[0] if rhs else lps[1])
+    # data flow: what is appended to the bound for each comparator, with the locals of the per-line body substituted in the
+    # order they are executed (a table that tests a variable after it was overwritten selects nothing)
+    if rhs:
+        bld = T.Builder()
+        for st in _line_body(lps[1]):
+            if st is rhs[0]:
+                break
+            if isinstance(st, ast.Assign) and len(st.targets) == 1 and isinstance(st.targets[0], ast.Name):
+                bld.exec_stmt(st)
+        added = T.simp(bld.t(rhs[0].value))
+        cmpcalls = [x for x in T.subterms(added) if isinstance(x, tuple) and x and x[0] == 'call' and T.show(x[1]) == 'comparator']
+        ctx.need(len(set(cmpcalls)) == 1, 'constraints_parser: the tolerance term does not depend on exactly one comparator(...) value')
+        tpl = eta0[0].value.value
+        expect = {'>': ('call', ' + e_ '), '<': ('call', ' - e_ '), '>=': ('mod', ' + ' + tpl), '<=': ('mod', ' - ' + tpl), '=': ('mod', ''), '==': ('mod', '')}
+        for cm, (head, const) in sorted(expect.items()):
+            v = fold_consts(T.substitute(added, cmpcalls[0], ('const', cm)))
+            if head == 'call':
+                if v[0] == 'or':
+                    v = v[1]        # a non-empty literal with its placeholder replaced is non-empty: the `or` stops here
+                ok_ = v[0] == 'call' and v[1][0] == 'attr' and v[1][2] == 'replace' and v[1][1] == ('const', const)
+            else:
+                ok_ = v[0] in ('mod', 'fmt') and v[1] == ('const', const)
+            ctx.stats['terms_compared'] += 1
+            ctx.check(ok_, 'constraints_parser#added[%s]' % cm, "'%s' appends %r to the bound" % (cm, const),
+                      "for the comparator '%s' the bound is extended by %s, not by %r (the strictness / inclusive-bound nudge is selected from a variable that no longer holds the comparator)"
+                      % (cm, T.show(v)[:160], const), f, rhs[0])
     # first pass: the != rule
     b1 = _line_body(lps[0])
     e1 = [s for s in stmts_of(lps[0]) if isinstance(s, ast.Assign) and isinstance(s.targets[0], ast.Name) and s.targets[0].id in ('eta', 'expression')]
@@ -217,9 +243,52 @@ def bounds_constraint(ctx):
     from .c12 import matrix_and_bounds_to_text
     matrix_and_bounds_to_text(ctx)     # the bounds text itself (numbers printed in full, '>=' with min, '<=' with max)
     h = ctx.func('mystic.constraints:boundsconstrain')
-    src = ''.join(unparse(h.node).split())
-    ctx.check('cons=ms.symbolic_bounds(min,max)' in src and 'cons=ms.generate_constraint(ms.generate_solvers(ms.simplify(cons)))' in src, 'boundsconstrain#symbolic',
-              'symbolic_bounds -> simplify -> generate_solvers -> generate_constraint', 'the symbolic bounds pipeline changed', h, h.node)
+    rts = return_terms(h.node)
+    ctx.need(len(rts) >= 2, 'boundsconstrain: expected a symbolic and a non-symbolic return')
+    ctx.stats['paths_enumerated'] += len(rts)
+    MIN, MAX = ('name', 'min'), ('name', 'max')
+    pairs = ('call', ('name', 'enumerate'), (('call', ('name', 'zip'), (MIN, MAX), ()),), ())
+    n_sym = n_plain = 0
+    for p, tm, b, conds in rts:
+        def tail(x):
+            return T.show(x).split('.')[-1]
+        if tm[0] == 'call' and tail(tm[1]) == 'generate_constraint':
+            n_sym += 1
+            chain = []
+            cur = tm
+            while cur[0] == 'call' and len(cur[2]) >= 1 and tail(cur[1]) in ('generate_constraint', 'generate_solvers', 'simplify', 'symbolic_bounds'):
+                chain.append(tail(cur[1]))
+                if tail(cur[1]) == 'symbolic_bounds':
+                    break
+                cur = cur[2][0]
+            ok_ = chain == ['generate_constraint', 'generate_solvers', 'simplify', 'symbolic_bounds'] and cur[2][:2] == (MIN, MAX) and not cur[3]
+            ctx.check(ok_, 'boundsconstrain#symbolic', 'symbolic_bounds(min, max) -> simplify -> generate_solvers -> generate_constraint',
+                      'the symbolic bounds pipeline is %s' % T.show(tm)[:200], h, p.exit_node)
+        else:
+            n_plain += 1
+            ok_ = tm[0] == 'call' and tm[1][0] == 'call' and tail(tm[1][1]) == 'impose_bounds' and len(tm[1][2]) == 1 and \
+                len(tm[2]) == 1 and tm[2][0][0] == 'lambda' and len(tm[2][0][1]) == 1 and tm[2][0][3] == ('name', tm[2][0][1][0])
+            d = tm[1][2][0] if ok_ else None
+            every = False
+            if d is not None and d[0] == 'call' and T.show(d[1]) == 'dict' and len(d[2]) == 1:
+                a = d[2][0]
+                if a == pairs:
+                    every = True
+                elif a[0] in ('listcomp', 'genexp') and len(a[2]) == 1:
+                    g = a[2][0]
+                    every = a[1] == (g[0],) and g[1] == pairs and not g[2]
+            elif d is not None and d[0] == 'dictcomp':
+                every = False     # (not an idiom of this code base: left undecided below)
+                raise AnalysisError('boundsconstrain builds its bounds table with a dict comprehension: not modelled')
+            ctx.check(ok_ and every, 'boundsconstrain#plain', 'impose_bounds({i: (min[i], max[i]) for every i}, clip=clip)(identity)',
+                      'without symbolic the bounds table is %s: an entry of (min, max) is dropped or altered before impose_bounds sees it (a bound of 0 is a bound)'
+                      % (T.show(d)[:200] if d is not None else T.show(tm)[:200]), h, p.exit_node)
+            if ok_:
+                kws = dict(tm[1][3])
+                clipv = kws.get('clip')
+                wantc = ('ifexp', ('cmp', 'in', ('const', 'clip'), ('name', 'kwds')), ('sub', ('name', 'kwds'), ('const', 'clip')), ('const', True))
+                ctx.check(clipv == wantc, 'boundsconstrain#clip', 'clip handed on as given (default True)', 'impose_bounds receives clip=%s' % (T.show(clipv) if clipv else None), h, p.exit_node)
+    ctx.need(n_sym >= 1 and n_plain >= 1, 'boundsconstrain: symbolic / plain returns not both found')
 
 
 @rule('C13.g', min_instances=1)
